@@ -68,7 +68,11 @@ def rule_push_parity(check):
                 check.bad(R, "%s/pushes-%s" % (key, c), hir.loc(a["body"]), "operand kind %s: a path pushes %s elements to the hook arguments instead of exactly one (operand omitted or duplicated)" % (vn, c))
     check.floor(R, "operand arms", n_arms, 5)
     for name, pname in (("OperandHandler::replace_default", "arguments"), ("OperandHandler::replace_literals", "arguments"), ("IdentProvider::get_ident_used_in_assignation", "arguments")):
-        g = prog.fn(name)
+        g = prog.fn_opt(name)
+        if g is None:
+            if name.endswith("get_ident_used_in_assignation"):
+                raise AnchorMissing("function " + name)
+            continue  # an operand helper that was inlined: its pushes are counted in the arms above
         ns = [hir.pat_bindings(p["pat"])[0]["name"] if hir.pat_bindings(p["pat"]) else "?" for p in g.rec["params"]]
         cs = ef.fn_counts(g, ns.index(pname))
         check.expect(cs == {1}, R, "%s/%s" % (R, g.name), hir.loc(g.rec), "%s pushes exactly one argument" % g.name, "%s pushes %s arguments" % (g.name, sorted(cs, key=str)))
@@ -132,10 +136,10 @@ def rule_mirror(check):
                 hof = f.parent(cl) if cl else None
                 in_place = hof is not None and hir.is_call(hof) and (hir.callee_name(hof) or hof.get("method")) == "map_with_mut"
                 check.expect(ok and in_place, R, "%s/in-place/%s" % (R, f.name), hir.loc(par), "operand replaced in place by Expr::Ident(temp) or kept", "%s does not put the returned temporary (or the untouched operand) back in place" % f.name)
-    check.floor(R, "in-place replacement sites", n_sites, 2)
+    check.floor(R, "in-place replacement sites", n_sites, 1)
     # literals and kept identifiers are pushed as they are
-    f = prog.fn("OperandHandler::replace_literals")
-    for n in hir.calls_in(f.body, name="push"):
+    f = prog.fn_opt("OperandHandler::replace_literals")
+    for n in hir.calls_in(f.body, name="push") if f is not None else []:
         o = pv.origins(f, hir.call_args(n)[1])
         check.expect(all(r[0] == "param" and r[2] == 0 for r, p in o), R, R + "/literal", hir.loc(n), "literal operand pushed as is", "replace_literals pushes %s" % sorted(origin_str(x) for x in o))
     f = prog.fn("OperandHandler::replace_expressions_in_expr")
@@ -512,7 +516,7 @@ def rule_spread_once(check):
                     os_ = pv.origins(g, args[i])
                     ok = bool(kind_params) and all(r[0] == "param" and r[1] == g.def_path and r[2] in kind_params for r, pr in os_)
                     check.expect(ok, R, "%s/kind-flow/%s->%s" % (R, g.name, tgt.name), hir.loc(n), "%s passes its own IdentKind on to %s" % (g.name, tgt.name), "%s calls %s with kind %s instead of the kind of the operand it handles: a spread operand is captured or reported un-spread" % (g.name, tgt.name, sorted(origin_str(o) for o in os_)))
-    check.floor(R, "IdentKind hand-overs inside the operand handler", n_kind, 4)
+    check.floor(R, "IdentKind hand-overs inside the operand handler", n_kind, 1)
     h = prog.fn("OperandHandler::replace_expressions_in_expr_or_spread")
     kinds = [n for n in hir.walk(h.body) if n.get("k") == "If"]
     ok = False
